@@ -194,15 +194,16 @@ theorem C19_defect_lost_block_never_reported :
       ∃ n, (run H (init bsS bsR data.length hash data) (honest (j + 1) ++ .lose :: honest n)).1.r.state = .finished := by
   intro h
   obtain ⟨n, hn⟩ := h (fun _ => []) 1 1 none [0] 0 (by decide) (by decide) (by decide)
-  rw [run_append, honest_prefix (fun _ => []) 1 1 1 none [0] (by decide) (by decide) 0 (by decide)] at hn
+  have hlen : [(0 : UInt8)].length = 1 := rfl
+  rw [hlen, run_append, honest_prefix (fun _ => []) 1 1 1 none [0] (by decide) (by decide) 0 (by decide)] at hn
   have hi := lose_idle (fun _ => []) 1 1 none [0] 0
+  rw [hlen] at hi
   have e : (run (fun _ => []) (atBlock 1 1 1 none [0] 0) (.lose :: honest n)).1 =
       (step (fun _ => []) (atBlock 1 1 1 none [0] 0) .lose).1 := by
     show (run _ (step _ _ .lose).1 (honest n)).1 = _
     exact run_honest_idle _ _ hi.1 n
-  have hn' : (run (fun _ => []) (atBlock 1 1 [(0 : UInt8)].length none [0] 0) (.lose :: honest n)).1.r.state = .finished := hn
-  rw [show [(0 : UInt8)].length = 1 from rfl, e, hi.2.1] at hn'
-  cases hn'
+  rw [e, hi.2.1] at hn
+  cases hn
 
 /-- **The hang in general, and what ends it.**  For every file, block size and data block `j`: if block `j` is lost
 without any answer (`lose`), or delivered under another sender JID so that the answer goes elsewhere (`wrongSender`),
@@ -375,6 +376,12 @@ theorem sender_reacts_to_peer_only (s : Send) (hs : s.state ≠ .finished) (c : 
       · simp [h0]
       · simp [h0, h]
 
+/-- **SOCKS5 sending job: success ⇒ the peer was really connected (directly or through the activated proxy) and every
+byte of the file was handed to the socket.** -/
+theorem socks_sender_success_implies_all_written (h : SHost) (size written : Nat) :
+    ssendOutcome h size written = .none → written = size ∧ (h = .ownConnected ∨ h = .proxyActivated) := by
+  cases h <;> simp [ssendOutcome]
+
 /-! ## SOCKS5 byte stream (no sequence numbers; stream-host / proxy negotiation outside the model) -/
 
 /-- **SOCKS5: success ⇒ the device holds identical bytes** for every sequence of socket events (chunks of any content,
@@ -433,6 +440,13 @@ example : (run id (init 2 4096 5 (some [1, 2, 3, 4, 5]) [1, 2, 3, 4, 5]) (honest
 example : (run id (init 2 4096 5 none [1, 2, 3, 4, 5]) (honest 2 ++ .drop :: honest 3)).1.r.error = .corrupt
     ∧ (run id (init 2 4096 5 none [1, 2, 3, 4, 5]) (honest 2 ++ .drop :: honest 3)).1.s.error = .protocol
     ∧ (run id (init 2 4096 5 none [1, 2, 3, 4, 5]) (honest 2 ++ .drop :: honest 3)).1.r.acc = [1, 2] := by decide
+-- block 1 lost and nobody answers: both jobs are still waiting after any number of further deliveries …
+example : (run id (init 2 4096 5 none [1, 2, 3, 4, 5]) (honest 2 ++ .lose :: honest 7)).1.r.state = .transfer
+    ∧ (run id (init 2 4096 5 none [1, 2, 3, 4, 5]) (honest 2 ++ .lose :: honest 7)).1.s.state = .transfer := by decide
+-- … the peer's error response ends the sending job with ProtocolError, a stale or foreign response does nothing
+example : (run id (init 2 4096 5 none [1, 2, 3, 4, 5]) [.deliver, .injectReply 0 0 (some .itemNotFound)]).1.s.error = .protocol := by decide
+example : (run id (init 2 4096 5 none [1, 2, 3, 4, 5]) [.deliver, .injectReply 2 0 none, .injectReply 0 1 none]).1
+    = (run id (init 2 4096 5 none [1, 2, 3, 4, 5]) [.deliver]).1 := by decide
 -- block 1 altered with the hash announced: FileCorruptError
 example : (run id (init 2 4096 5 (some [1, 2, 3, 4, 5]) [1, 2, 3, 4, 5]) (honest 2 ++ .flip 0 :: honest 3)).1.r.error = .corrupt
     ∧ (run id (init 2 4096 5 (some [1, 2, 3, 4, 5]) [1, 2, 3, 4, 5]) (honest 2 ++ .flip 0 :: honest 3)).1.r.acc = [1, 2, 2, 4, 5] := by decide
